@@ -5,8 +5,9 @@ P: Props/C19.v over Interner/{Model,Lemmas,Conc,EnvVar}.v: for EVERY schedule of
    necessary (C19_split_intern_refuted); the process environment variable MIMIUM_CURRENT_MACRO_FILE is not interleaving-safe
    (C19_envvar_race, finding F11 -- from code reading + model: the harness has no symphonia plugin).
 C: (1) extracted model vs real SessionGlobals on sequential operation sequences (fresh processes, exact ids);
-   (2) K real threads interpreting symbol programs against the real interner/type arena: every thread's observations must
-       equal the model's solo observations.
+   (2) K real threads interpreting symbol programs against the real interner/type arena (resolving either by a copy under the
+       lock or through Symbol::as_str as the compiler does): every thread's observations must equal the model's solo observations;
+   (3) a reference obtained from Symbol::as_str must still read the same string after another thread interned 200000 strings.
 S: K in {2,4,8,16} real threads, each compiling and running (VM and WASM, own ExecContext) distinct or identical sources at
    the same time with random start skews; every thread's Mir / bytecode listing / WASM bytes / skeleton / outputs /
    diagnostics are compared with the result of the same job run alone; panic, contamination, deadlock (60 s) = violation.
@@ -166,7 +167,8 @@ def run(ck):
                                       "program": rq["threads"][ti], "observed": got, "solo(model)": want, "request": rq}, False))
                         break
 
-    # ---- the reference handed out by Symbol::as_str while another thread interns (finding F24) ------------------------------
+    # ---- the reference handed out by Symbol::as_str must stay valid while another thread interns (was finding F24; fixed by
+    #      switching to a backend that never moves strings): a dangling / garbage name is a violation --------------------
     probe_bad = []
     for i in range(3):
         res, rcx = run_one(cexe, {"op": "asstr", "seed": ck.rng.fork(("C19asstr", i)).below(1 << 20), "fill": 200000}, 120)
@@ -314,7 +316,7 @@ def finish(ck):
                      "variable is observed on the real code). Atomicity itself (one std Mutex around every access) is trusted. NOT proved: "
                      "that everything else in a compilation is thread-local; for that K in {2,4,8,16} real compile+run jobs (VM and WASM, own "
                      "ExecContext per thread) are run concurrently with random skews and compared artefact by artefact with their solo runs."),
-        trusted_base=["Coq 8.16.1 kernel", "extraction (ExtrOcamlBasic/ExtrOcamlString), ocaml/interner_drv.ml", "std::sync::Mutex / Rust memory model", "Symbol::as_str's result is modelled as a copy made under the lock (the real reference can dangle: finding F24)",
+        trusted_base=["Coq 8.16.1 kernel", "extraction (ExtrOcamlBasic/ExtrOcamlString), ocaml/interner_drv.ml", "std::sync::Mutex / Rust memory model", "Symbol::as_str's result is modelled as a copy made under the lock; the real function returns a reference into the interner's storage, which is sound only because BucketBackend never moves strings (fixed finding F24; probed on every run)",
                       "harness/lang concurrency_run + determinism_run + runner.rs", "the OS scheduler produces varied interleavings (sampled, not enumerated)",
                       "python generators"],
         rule=("symbol programs: random straight-line programs over a small string pool, K in {2,4,8,16} real threads, 3-6 repetitions, compared "
